@@ -7,7 +7,7 @@
    Byte-identical output across processes and the behaviour of the generated parser under permuted
    declarations are observed on the real binary (see DESIGN.md), not theorems. *)
 From Coq Require Import List Arith.
-From LV Require Import Sema Dominators OrderIndep FirstSpec FirstCert FirstOrder.
+From LV Require Import Sema Dominators OrderIndep FirstSpec FirstCert FirstOrder FollowOrder.
 
 Theorem C15_dominators_independent_of_iteration_order :
   forall pg start nns1 nns2 fuel1 fuel2 d1 d2,
@@ -34,5 +34,23 @@ Theorem C15_first_sets_independent_of_declaration_order :
   forall y, mem y (get m1 (rid_of x)) = mem y (get m2 (rid_of x)).
 Proof. exact first_sets_order_independent. Qed.
 
+(* ... nor the follow and predict sets (tokens; the empty-word marker in follow sets is ignored as in C09):
+   same rules at permuted positions, same start rule, end marker and parts *)
+Theorem C15_analysis_sets_independent_of_declaration_order :
+  forall g1 g2 s t fuel1 fuel2 fuel3 fuel4 fi1 fi2 fo1 lf1 fo2 lf2,
+  (forall r, t (s r) = r) -> (forall r, s (t r) = r) ->
+  (forall r, body_of g2 (s r) = option_map (rename s) (body_of g1 r)) ->
+  g_start g2 = s (g_start g1) -> g_eof g2 = g_eof g1 ->
+  (forall p a, In (p, a) (g_parts g1) <-> In (s p, a) (g_parts g2)) ->
+  wf_ids_b g1 = true -> productive_b g1 = true -> wf_ids_b g2 = true -> productive_b g2 = true ->
+  calc_first g1 fuel1 = Some fi1 -> calc_first g2 fuel2 = Some fi2 ->
+  calc_follow g1 fi1 fuel3 = Some (fo1, lf1) -> calc_follow g2 fi2 fuel4 = Some (fo2, lf2) ->
+  forall x, In x (nodes_of g1) ->
+    (forall y, mem y (get fi1 (rid_of x)) = mem y (get fi2 (rid_of x)))
+    /\ (forall a, mem (T a) (get fo1 (rid_of x)) = mem (T a) (get fo2 (rid_of x)))
+    /\ (forall a, mem (T a) (get (calc_predict fi1 fo1) (rid_of x)) = mem (T a) (get (calc_predict fi2 fo2) (rid_of x))).
+Proof. exact analysis_sets_order_independent. Qed.
+
 Print Assumptions C15_dominators_independent_of_iteration_order.
 Print Assumptions C15_first_sets_independent_of_declaration_order.
+Print Assumptions C15_analysis_sets_independent_of_declaration_order.
